@@ -246,10 +246,25 @@ func c20Reopen(c *Ctx, r *Report, fn *ssa.Function) {
 	r.Check(depApp, "R20.2", "truncating open depends on the append flag", c.Rel(trunc.Pos()), "control-dependent on mgr.append", "NewFileWriteOutputHandler is reachable without consulting the manager's append flag: '>>' would truncate")
 	tf, ok1 := openFileFlags(c, c.SSAFunc(c.LookupFunc("pkg/output", "NewFileWriteOutputHandler")))
 	af, ok2 := openFileFlags(c, c.SSAFunc(c.LookupFunc("pkg/output", "NewFileAppendOutputHandler")))
-	const oAPPEND, oTRUNC, oCREAT, oWRONLY = 0x400, 0x200, 0x40, 0x1
+	// the flag values are platform-dependent: take them from the os package as loaded
+	osConst := func(name string) int64 {
+		if p := c.PkgByPath["os"]; p != nil {
+			if k, ok := p.Types.Scope().Lookup(name).(*types.Const); ok {
+				if v, ok := constant.Int64Val(k.Val()); ok {
+					return v
+				}
+			}
+		}
+		return -1
+	}
+	oAPPEND, oTRUNC, oCREAT, oWRONLY := osConst("O_APPEND"), osConst("O_TRUNC"), osConst("O_CREATE"), osConst("O_WRONLY")
+	if oAPPEND < 0 || oTRUNC < 0 || oCREAT < 0 || oWRONLY < 0 {
+		r.Undecided("R20.2", "constructor open flags", "", "os.O_* constants not found in the loaded program")
+		return
+	}
 	okFlags := ok1 && ok2 && tf&oTRUNC != 0 && tf&oAPPEND == 0 && af&oAPPEND != 0 && af&oTRUNC == 0 && tf&oCREAT != 0 && af&oCREAT != 0 && tf&oWRONLY != 0 && af&oWRONLY != 0 && (tf^af) == (oTRUNC|oAPPEND)
 	r.Check(okFlags, "R20.2", "constructor open flags", "pkg/output/file_output_handlers.go", fmt.Sprintf("write=%#x append=%#x", tf, af),
-		fmt.Sprintf("the write/append constructors must differ exactly in O_TRUNC vs O_APPEND (linux values): write=%#x append=%#x", tf, af))
+		fmt.Sprintf("the write/append constructors must differ exactly in O_TRUNC vs O_APPEND: write=%#x append=%#x", tf, af))
 }
 
 // ---- R20.3 -------------------------------------------------------------------
